@@ -22,7 +22,7 @@ Section FitInv.
       length (weights_of w (length y)) = length y /\
       fit_loop O solve f alpha tol x y (length y) p (weights_of w (length y)) off (max_iter - 1)
                (initial_coef y p) None = Some (f_ok ft, f_coef ft, q) /\
-      deviance O f y (q_mu q) = Some (f_dev ft) /\
+      weighted_deviance O f y (q_mu q) (weights_of w (length y)) = Some (f_dev ft) /\
       compute_ddbeta O x (q_dmu q) (q_var q) (weights_of w (length y)) = Some (f_info ft) /\
       f_p ft = p.
   Proof.
@@ -45,7 +45,7 @@ Section FitInv.
     fold (initial_coef y p).
     destruct (fit_loop O solve f alpha tol x y (length y) p (weights_of w (length y)) off (max_iter - 1) (initial_coef y p) None)
       as [[[cv c] q]|] eqn:Hl; [|discriminate]. cbn [bind].
-    destruct (deviance O f y (q_mu q)) as [dv|] eqn:Hdv; [|discriminate]. cbn [bind].
+    destruct (weighted_deviance O f y (q_mu q) (weights_of w (length y))) as [dv|] eqn:Hdv; [|discriminate]. cbn [bind].
     destruct (compute_ddbeta O x (q_dmu q) (q_var q) (weights_of w (length y))) as [info|] eqn:Hin; [|discriminate]. cbn [bind].
     intros [= <-]. cbn [f_ok f_coef f_dev f_info f_p]. exists p, q. repeat split; auto.
   Qed.
@@ -59,7 +59,7 @@ Lemma fit_ok_implies_converged solve f alpha tol w off x y max_iter ft :
     run RO solve f alpha tol x y (length y) p (weights_of RO w (length y)) off k (initial_coef RO y p) None = Some (c, Some lp) /\
     step RO solve f alpha tol x y (length y) p (weights_of RO w (length y)) off c (Some lp) = Some (f_coef ft, pd', true, q) /\
     Rabs (pd' - lp) / lp < tol /\
-    deviance RO f y (q_mu q) = Some (f_dev ft).
+    weighted_deviance RO f y (q_mu q) (weights_of RO w (length y)) = Some (f_dev ft).
 Proof.
   intros H Hok. destruct (fit_inv RO solve f alpha tol w off x y max_iter ft H) as (p & q & Hp & _ & _ & Hl & Hd & _ & _).
   rewrite Hok in Hl. destruct (ok_implies_converged _ _ _ _ _ _ _ _ _ _ _ _ _ _ _ Hl) as (k & c & lp & pd' & Hk & Hr & Hs & L).
